@@ -44,6 +44,13 @@ func scenarios(thorough bool) []e3drive.Scenario {
 	o2 := o
 	o2.GPUs, o2.FarFlushLatency = 2, 4
 	add(e3scn.Kernel1Q(o2), 1)
+	// a kernel on a unified device: one launch request per member GPU, completions in the same cycle (equal
+	// latencies) and in different cycles
+	for _, lat := range [][2]int{{1, 1}, {1, 2}, {2, 1}, {3, 1}, {1, 3}} {
+		ou := o
+		ou.RspLatency, ou.GPUs, ou.FarFlushLatency = lat[0], 2, lat[1]
+		add(e3scn.UnifiedKernel(ou), 1)
+	}
 	if thorough {
 		add(e3scn.BackToBack(3, o), 2)
 		add(e3scn.Kernel1Q(o), 2)
